@@ -97,7 +97,8 @@ def generate(prop, rng, index, tier):
                 libs = libs + ["nolib_zz"] if rng.random() < 0.5 else ["nolib_zz"] + libs   # not installed
             elif rng.random() < 0.06:
                 libs = []                                                                      # the empty subset
-            ops.append(["PROGRAM", libs])
+            # the library names may arrive as a tuple, a list or any other iterable of names
+            ops.append(["PROGRAM", libs, rng.choice(["tuple", "tuple", "tuple", "list", "generator", "iterator"])])
         elif r < 0.87:
             libs = rng.sample(tops, rng.randint(1, min(2, len(tops))))
             defined = [c[1] or c[0] for sp in universe if sp["name"] in libs for c in sp["commands"]]
@@ -343,8 +344,19 @@ def _run_history(sc, res, log, Program, MPilotError, mc, importlib):
         if "." in mod:
             imported.add(mod.split(".")[0])   # importing a submodule imports its package first
 
-    def check_program(libs, builtin=None, label="PROGRAM"):
+    def check_program(libs, builtin=None, label="PROGRAM", container="tuple"):
         libs_all = tuple(BUILTIN[builtin]) + tuple(libs) if builtin else tuple(libs)
+
+        def as_given():
+            if container == "list":
+                return list(libs_all)
+            if container == "generator":
+                return (x for x in libs_all)
+            if container == "iterator":
+                return iter(list(libs_all))
+            return libs_all
+        if container != "tuple":
+            res.probe("library names given as a " + container)
         if needs_missing_dependency(libs_all) and "nolib_zz" not in libs_all:
             # part of a requested library cannot be imported yet: the request fails (how is not this property's business),
             # it is never answered with the part that could be loaded
@@ -376,7 +388,7 @@ def _run_history(sc, res, log, Program, MPilotError, mc, importlib):
             res.probe("request that names a library which is not installed")
             return None
         try:
-            program = Program(libraries=libs_all)
+            program = Program(libraries=as_given())
             err = None
         except Exception as exc:  # noqa
             program, err = None, exc
@@ -487,7 +499,7 @@ def _run_history(sc, res, log, Program, MPilotError, mc, importlib):
             log.emit("install", pkg=op[1])
             res.probe("optional dependency of a sub-package installed during the history")
         elif op[0] == "PROGRAM":
-            check_program(op[1])
+            check_program(op[1], container=op[2] if len(op) > 2 else "tuple")
         elif op[0] == "BUILTIN":
             check_program(op[2], builtin=op[1], label="BUILTIN")
             res.probe("built-in %s configuration" % op[1])
